@@ -1,6 +1,7 @@
 mod ast;
 mod c01;
 mod c03;
+mod c04;
 mod c05;
 mod c06;
 mod c07;
@@ -73,6 +74,7 @@ fn main() {
         "C02" => c01::run(c01::Prop::C02, tier),
         "C09" => c01::run(c01::Prop::C09, tier),
         "C03" => c03::run(tier),
+        "C04" => c04::run(tier),
         "C05" => c05::run(tier),
         "C06" => c06::run(tier),
         "C07" => c07::run(tier),
